@@ -616,12 +616,13 @@ class ADEV(Pytree):
                             )
                         )
 
-                        # NOTE: JAX stores conditional branches in reverse order in the params.
-                        # We reverse them here to match the expected order for jax.lax.cond.
-                        # This is a JAX implementation detail that may change in future versions.
-                        return jax.lax.cond(
+                        # cond_p's first operand is the integer branch index (lax.cond
+                        # converts its predicate) and params["branches"] is in index
+                        # order, for any number of branches (lax.switch).
+                        return jax.lax.switch(
                             Dual.tree_primal(in_vals[0]),
-                            *it.chain(reversed(branch_adev_functions), in_vals[1:]),
+                            branch_adev_functions,
+                            *in_vals[1:],
                         )
 
                     # Default JVP rule for other JAX primitives.
